@@ -227,7 +227,18 @@ def execute(env, case):
         struct = res.context.result_column_struct
         keys = list(res.keys())
         row = res.first()
-    return {"stmt": stmt, "elems": elems, "vals": vals, "md": md, "desc": desc, "struct": struct,
+        # Result.columns(<int>) must keep the key and the value of that position
+        colproj = []
+        if not isinstance(stmt, str):
+            for i in range(len(keys)):
+                try:
+                    r2 = conn.execute(stmt).columns(i)
+                    k2 = list(r2.keys())
+                    v2 = r2.first()
+                    colproj.append((i, k2, tuple(v2) if v2 is not None else None))
+                except Exception as e:  # noqa: BLE001
+                    colproj.append((i, classify_exc(e), None))
+    return {"colproj": colproj, "stmt": stmt, "elems": elems, "vals": vals, "md": md, "desc": desc, "struct": struct,
             "keys": keys, "row": row, "conn": conn, "adapted": adapted}
 
 
@@ -276,6 +287,19 @@ def oracle(case, ob):
         bad.append(("c11-oracle:keys-length", "keys %r for %d columns" % (keys, len(vals))))
         return bad
     n = len(vals)
+    for i, k2, v2 in ob.get("colproj", []):
+        dup_name = keys.count(keys[i]) > 1
+        via_name = "columns-by-integer-index-resolved-through-ambiguous-name"
+        if isinstance(k2, str):
+            key = via_name if k2 == "A" else "c11-oracle:columns-int-index-raised"
+            bad.append((key, "result.columns(%d) raised (%s) although an integer index is unambiguous; keys %r" % (i, k2, keys)))
+        elif v2 != (vals[i],):
+            key = via_name if (dup_name or shared_without_scan(ob, keys[i])) else "c11-oracle:columns-int-index-wrong-value"
+            bad.append((key, "result.columns(%d) -> %r, expected %r; keys %r" % (i, v2, (vals[i],), keys)))
+        elif k2 != [keys[i]]:
+            # right value, other key: _reduce takes the key from MD_LOOKUP_KEY (anonymous / untruncated name)
+            bad.append(("columns-projection-renames-key-to-lookup-name",
+                        "result.columns(%d).keys() -> %r, result.keys()[%d] is %r" % (i, k2, i, keys[i])))
     probes = []  # (kind, key, denoted positions, primary?)
     seen_obj = []
     for p, e in enumerate(elems):
